@@ -196,14 +196,14 @@ func (d *driver) run(r *rig.Rig, s *Scenario, np int) error {
 			gerr := ""
 			// the combined adjustment applied with the project's generator
 			var cdi []string
-			g := newGen(abs.ToOCISpec(s.Orig), &cdi)
+			g := newGen(abs.ToOCISpecOrd(s.Orig, s.Scn%2 == 1), &cdi)
 			if e := g.Adjust(rpl.Adjust); e != nil {
 				gerr += "combined: " + e.Error() + ";"
 			}
 			end["fcomb"] = abs.FromOCISpec(g.Config, cdi)
 			// each plugin's adjustment applied in turn
 			var cdi2 []string
-			g2 := newGen(abs.ToOCISpec(s.Orig), &cdi2)
+			g2 := newGen(abs.ToOCISpecOrd(s.Orig, s.Scn%2 == 1), &cdi2)
 			for _, e := range s.buf.Events() {
 				if e["ev"] != "Apply" {
 					continue
